@@ -312,7 +312,9 @@ func init() {
 			lines = append(lines, "7 60 60 x 1 1 50 2000 0", "9 6291456 10 b 1048576 10 0 0 40",
 				"3 7 5 p 1 1", "11 16385 3 p 16384 1", "5 40000 16385 p 5000 16384",
 				// the backend has finished and starts to read late, longer than the idle timeout: what piles up in the relay must still arrive
-				"13 8388608 0 b 1048576 10 0 400 0 1200")
+				"13 8388608 0 b 1048576 10 0 400 0 1200",
+				// large uploads towards slow readers, and large downloads: the tail and the end-of-stream after it
+				"21 3145728 7 c 65536 7 0 0 25", "22 4194304 0 c 1048576 1 0 0 30", "23 2097152 2097152 x 32768 32768 0 0 20", "24 5242880 11 b 262144 11 0 0 35")
 			sizes := []int{0, 1, 2, 100, 4095, 16383, 16384, 16385, 40000, 100000}
 			for i := 0; i < *fN; i++ {
 				nc, nb := sizes[r.intn(len(sizes))], sizes[r.intn(len(sizes))]
